@@ -327,3 +327,19 @@ Fixpoint times_mono (t : Z) (ops : list op) : Prop :=
   end.
 
 End Conv.
+
+(* ------------------------------------------------------------------ client/logclient.go *)
+
+(* addChainWithRetry (AddChain / AddPreChain): PostAndParseWithRetry is called once; when it
+   returns (httpRsp, body, nil) the SCT is decoded from the JSON response (tls.Unmarshal of the
+   signature, base64 of the extensions).  If that fails the call returns RspError{200, body}
+   at once - no further POST, the backoff untouched.  [sct_ok body]: the response with that
+   body id holds a decodable SCT (an input, like [parsable]). *)
+Definition add_chain_result (sct_ok : Z -> bool) (r : result) : result :=
+  match r with
+  | RSuccess body => if sct_ok body then RSuccess body else RStatus 200 body
+  | _ => r
+  end.
+
+Definition add_chain_out (sct_ok : Z -> bool) (o : call_out) : call_out :=
+  mkOut (o_attempts o) (o_trace o) (add_chain_result sct_ok (o_res o)) (o_end o) (o_b o).
